@@ -15,6 +15,48 @@ pub fn send_sync_probe() {
     assert_send_sync::<ExecutionError>();
 }
 
+/// A compiled program, or (for the Miri stage, where the ANTLR front end is prohibitively slow) a
+/// pre-parsed public AST executed through the public `Context::resolve`.
+pub enum Runnable {
+    P(Program),
+    E(cel_parser::Expression),
+}
+
+impl Runnable {
+    pub fn execute(&self, ctx: &Context) -> Result<Value, ExecutionError> {
+        match self {
+            Runnable::P(p) => p.execute(ctx),
+            Runnable::E(e) => ctx.resolve(e),
+        }
+    }
+    fn dbg(&self) -> String {
+        match self {
+            Runnable::P(p) => format!("{:?}", p),
+            Runnable::E(e) => format!("{:?}", e),
+        }
+    }
+}
+
+fn load_runnables(case: &J) -> Result<Vec<Runnable>, J> {
+    let mut progs = vec![];
+    if let Some(asts) = case["asts"].as_array() {
+        for a in asts {
+            match crate::astdump::undump(a) {
+                Ok(e) => progs.push(Runnable::E(e)),
+                Err(e) => return Err(json!({"harness_err": e})),
+            }
+        }
+        return Ok(progs);
+    }
+    for s in case["progs"].as_array().map(|a| a.as_slice()).unwrap_or(&[]) {
+        match Program::compile(s.as_str().unwrap_or("")) {
+            Ok(p) => progs.push(Runnable::P(p)),
+            Err(e) => return Err(json!({"compile_err": {"src": s, "all": e.to_string()}})),
+        }
+    }
+    Ok(progs)
+}
+
 /// A weak handle on the heap buffer behind a context variable (does not change strong counts).
 enum Buf {
     List(Weak<Vec<Value>>),
@@ -68,13 +110,10 @@ fn snapshot(ctx: &Context, names: &[String]) -> Vec<J> {
 }
 
 pub fn op_history(case: &J) -> J {
-    let mut progs = vec![];
-    for s in case["progs"].as_array().map(|a| a.as_slice()).unwrap_or(&[]) {
-        match Program::compile(s.as_str().unwrap_or("")) {
-            Ok(p) => progs.push(p),
-            Err(e) => return json!({"compile_err": {"src": s, "all": e.to_string()}}),
-        }
-    }
+    let progs = match load_runnables(case) {
+        Ok(p) => p,
+        Err(e) => return e,
+    };
     let ctx = match build_context(case) {
         Ok(c) => c,
         Err(e) => return json!({"harness_err": e}),
@@ -96,7 +135,7 @@ pub fn op_history(case: &J) -> J {
         })
         .collect();
     let snap0 = snapshot(&ctx, &names);
-    let dbg0: Vec<String> = progs.iter().map(|p| format!("{:?}", p)).collect();
+    let dbg0: Vec<String> = progs.iter().map(|p| p.dbg()).collect();
     // solo baseline: every program executed alone, in a thread of its own that has no history
     // (thread-local state dies with the thread), against a context of its own
     let mut solo: Vec<J> = vec![];
@@ -166,7 +205,7 @@ pub fn op_history(case: &J) -> J {
                 changed_earlier.push(json!({"idx": i, "was": was, "now": now}));
             }
         }
-        let dbg_same = progs.iter().zip(dbg0.iter()).all(|(p, d)| &format!("{:?}", p) == d);
+        let dbg_same = progs.iter().zip(dbg0.iter()).all(|(p, d)| &p.dbg() == d);
         if let Ok(v) = r2 {
             let e = enc(&v);
             earlier.push((v, e));
@@ -242,7 +281,7 @@ struct OpRec {
     log: Vec<J>,
 }
 
-fn run_one(p: &Program, root: &Context, thread: usize, seq: usize) -> (J, Vec<J>) {
+fn run_one(p: &Runnable, root: &Context, thread: usize, seq: usize) -> (J, Vec<J>) {
     // every execution happens in an inner scope of the thread's own
     let mut inner = root.new_inner_scope();
     inner.add_variable_from_value("tid", Value::Int(thread as i64));
@@ -257,13 +296,10 @@ fn run_one(p: &Program, root: &Context, thread: usize, seq: usize) -> (J, Vec<J>
 }
 
 pub fn op_conc(case: &J) -> J {
-    let mut progs = vec![];
-    for s in case["progs"].as_array().map(|a| a.as_slice()).unwrap_or(&[]) {
-        match Program::compile(s.as_str().unwrap_or("")) {
-            Ok(p) => progs.push(p),
-            Err(e) => return json!({"compile_err": {"src": s, "all": e.to_string()}}),
-        }
-    }
+    let progs = match load_runnables(case) {
+        Ok(p) => p,
+        Err(e) => return e,
+    };
     if progs.is_empty() {
         return json!({"harness_err": "no programs"});
     }
